@@ -42,7 +42,11 @@ class KeywordSearches:
         """
         invert: bool = terms.inverted
         keyword: PathSearchKeywords = terms.keyword
-        parameters: List[str] = terms.parameters
+        try:
+            parameters: List[str] = terms.parameters
+        except ValueError as ex:
+            raise YAMLPathException(
+                "{} in".format(ex), str(yaml_path)) from ex
         nc_matches: Generator[NodeCoords, None, None]
 
         if keyword is PathSearchKeywords.DISTINCT:
@@ -112,6 +116,11 @@ class KeywordSearches:
                      PathSearchKeywords.HAS_CHILD, 1, param_count),
                 str(yaml_path))
         match_key = parameters[0]
+        if not match_key:
+            raise YAMLPathException(
+                ("The {} Search Keyword requires a non-empty child name in"
+                 " YAML Path").format(PathSearchKeywords.HAS_CHILD),
+                str(yaml_path))
 
         if match_key[0] == "&":
             matches = KeywordSearches._has_anchored_child(
